@@ -26,6 +26,44 @@ CHECKS = {
         "Python's ==/in/any/frozenset. Not decided: runtime enumeration of all "
         "720 x parity pairs (another family).",
         "DESIGN.md 3/C04"),
+    "C09": (
+        "effect analysis by abstract interpretation of every reader x class "
+        "+ paired-update / purge / key-centre rules on the mutators",
+        "Induction over mutators, decided statically: every public reader "
+        "(and everything it reaches in algorithms/, converters, JSON export) "
+        "has an empty write effect on its input graphs incl. auto-vivifying "
+        "lookups; no slot is ever an auto-creating container; add/remove "
+        "atom/bond perform the paired updates that keep the three parallel "
+        "containers in step; remove_atom resolved for each class purges "
+        "every descriptor-bearing slot under `atom in descriptor.atoms`; "
+        "descriptors are stored under their own centre.",
+        "Not decided: agreement of values with a reference model after a "
+        "history (another family). Trusted: transfer functions of "
+        "sa/absint.py, frozen mutator list.",
+        "DESIGN.md 3/C09"),
+    "C10": (
+        "ownership / freshness abstract interpretation over all derivation "
+        "operations x receiver class x argument class",
+        "Static proof under the stated abstraction: for 64 (operation, class, "
+        "argument class) instances every slot of the derived graph is fresh "
+        "down to the depth of its declared container type (290 slot "
+        "obligations), and no operation returns its input.",
+        "Attribute values are opaque (API-level edits only). Trusted: "
+        "transfer functions of sa/absint.py (deepcopy, comprehension, "
+        "dict()/set()/.copy(), **kwargs, update, subscript store).",
+        "DESIGN.md 3/C10"),
+    "C19": (
+        "path-ordered effect analysis with validation facts "
+        "(validate-before-write) + guard table per mutator",
+        "For every mutator x receiver class (50 instances, super()/self calls "
+        "inlined through the MRO): no node that may raise executes after a "
+        "write to the graph on any path, and every normal exit has validated "
+        "the atoms / bond / centre / element / label the request names "
+        "(66 guard obligations).",
+        "Exception types are not decided; type errors of arguments are out "
+        "of scope. Trusted: fact rules of sa/effects.py and invariants I1/I2 "
+        "(C09).",
+        "DESIGN.md 3/C19"),
 }
 
 NOT_APPLICABLE = {
